@@ -4,12 +4,6 @@ import "html"
 
 // C11: URLSanitized returns its input or the innocuous URL, and never a javascript: URL.
 
-func vASCII(s string) {
-	for i := 0; i < len(s); i++ {
-		vAssume(s[i] < 0x80)
-	}
-}
-
 func vHarness_C11_sound() {
 	n := vParam("n")
 	s := vNondetString("s", n)
